@@ -13,7 +13,8 @@ struct PadCase {
 
 bool run_pad(const PadCase &c, std::string &msg) {
     Rng r(c.cseed);
-    Bytes orig(c.cap);
+    size_t real = std::max(c.cap, c.unpadded);          // the buffer really holds the data even when the stated capacity is smaller
+    Bytes orig(real);
     r.fill(orig.data(), orig.size());
     for (auto &b : orig) if (b == 0 || b == 0x80) b = 0x33;       // so that untouched bytes are distinguishable from padding
     XBuf buf(orig, c.cseed % 16);
@@ -30,7 +31,7 @@ bool run_pad(const PadCase &c, std::string &msg) {
     }
     if (rc != 0) { snprintf(b, sizeof b, "sodium_pad(unpadded=%zu, blocksize=%zu, max=%zu) returned %d, expected 0", c.unpadded, c.blocksize, c.cap, rc); msg = b; return false; }
     if (!c.null_lenp && plen != padded) { snprintf(b, sizeof b, "sodium_pad reported padded length %zu, expected %zu", plen, padded); msg = b; return false; }
-    for (size_t i = 0; i < c.cap; i++) {
+    for (size_t i = 0; i < real; i++) {
         uint8_t e = i < c.unpadded ? orig[i] : i == c.unpadded ? 0x80 : i < padded ? 0x00 : orig[i];
         if (now[i] != e) { snprintf(b, sizeof b, "sodium_pad(unpadded=%zu, blocksize=%zu): byte %zu is %02x expected %02x", c.unpadded, c.blocksize, i, now[i], e); msg = b; return false; }
     }
@@ -80,9 +81,9 @@ void explore_pad(Ctx &ctx) {
             std::vector<size_t> caps;
             if (!ref::pad_len(un, bs, padded)) caps = { un, un + 16 };
             else caps = { un, padded - 1, padded, padded + 1, padded + bs + 3 };
-            if (un == 0) caps.push_back(0);
+            // the capacity is whatever the caller states, also less than the data length: the call must then fail without writing
+            caps.push_back(0); if (un > 0) { caps.push_back(un - 1); caps.push_back(un / 2); }
             for (size_t cap : caps) {
-                if (cap < un) continue;
                 PadCase c{ un, bs, cap, (un + bs) % 5 == 0, mix64(ctx.seed, mix64(un, bs)) };
                 exec_case(ctx, c, run_pad, mix64(mix64(un, bs), cap), bs >= 2);
             }
